@@ -1,0 +1,132 @@
+//go:build verif
+
+package proxy
+
+import (
+	"net"
+
+	"go.minekube.com/gate/pkg/edition/java/netmc"
+	"go.minekube.com/gate/pkg/edition/java/profile"
+	"go.minekube.com/gate/pkg/edition/java/proto/packet"
+	"go.minekube.com/gate/pkg/edition/java/proto/packet/config"
+	"go.minekube.com/gate/pkg/edition/java/proto/packet/plugin"
+	"go.minekube.com/gate/pkg/edition/java/proxy/phase"
+	"go.minekube.com/gate/pkg/gate/proto"
+	"go.minekube.com/gate/pkg/util/uuid"
+)
+
+// Verification hooks for property C24 (early plugin message queues). Add-only, no logic:
+// constructors over caller-supplied connections, accessors and thin forwarding functions.
+
+// C24Player wraps a connectedPlayer built by newConnectedPlayer over a caller-supplied connection.
+type C24Player struct{ p *connectedPlayer }
+
+// C24ServerConn wraps a serverConnection built by newServerConnection.
+type C24ServerConn struct{ sc *serverConnection }
+
+// C24Config wraps a clientConfigSessionHandler, C24Play a clientPlaySessionHandler.
+type (
+	C24Config struct{ h *clientConfigSessionHandler }
+	C24Play   struct{ h *clientPlaySessionHandler }
+)
+
+// C24MaxMessages / C24MaxBytes return the queue caps.
+func C24MaxMessages() int { return maxQueuedLoginPluginMessages }
+func C24MaxBytes() int    { return maxQueuedLoginPluginMessageBytes }
+
+// C24NewPlayer constructs a connectedPlayer through newConnectedPlayer with the deps HandleConn builds.
+func C24NewPlayer(px *Proxy, client netmc.MinecraftConn, name string) *C24Player {
+	deps := &sessionHandlerDeps{
+		proxy:          px,
+		registrar:      px,
+		configProvider: px,
+		eventMgr:       px.event,
+		authenticator:  px.authenticator,
+		loginsQuota:    px.loginsQuota,
+	}
+	prof := &profile.GameProfile{ID: uuid.OfflinePlayerUUID(name), Name: name}
+	vhost := &net.TCPAddr{IP: net.IPv4(127, 0, 0, 1), Port: 25565}
+	return &C24Player{p: newConnectedPlayer(client, prof, vhost, packet.LoginHandshakeIntent, false, nil, deps)}
+}
+
+// C24NewServerConn constructs a serverConnection through newServerConnection, installs backend
+// (nil-able) as its connection and sets the backend phase.
+func C24NewServerConn(pl *C24Player, name string, backend netmc.MinecraftConn, ph phase.BackendConnectionPhase) *C24ServerConn {
+	srv := newRegisteredServer(NewServerInfo(name, &net.TCPAddr{IP: net.IPv4(127, 0, 0, 1), Port: 25566}))
+	sc := newServerConnection(srv, nil, pl.p)
+	sc.connection = backend
+	sc.connPhase = ph
+	return &C24ServerConn{sc: sc}
+}
+
+func c24sc(s *C24ServerConn) *serverConnection {
+	if s == nil {
+		return nil
+	}
+	return s.sc
+}
+
+func C24SetBackendConn(s *C24ServerConn, backend netmc.MinecraftConn) {
+	s.sc.mu.Lock()
+	s.sc.connection = backend
+	s.sc.mu.Unlock()
+}
+func C24SetBackendPhase(s *C24ServerConn, ph phase.BackendConnectionPhase) { s.sc.SetPhase(ph) }
+func C24SetClientPhase(pl *C24Player, ph phase.ClientConnectionPhase)      { pl.p.SetPhase(ph) }
+func C24SetConnectedServer(pl *C24Player, s *C24ServerConn)                { pl.p.setConnectedServer(c24sc(s)) }
+func C24SetInFlight(pl *C24Player, s *C24ServerConn)                       { pl.p.setInFlightConnection(c24sc(s)) }
+
+// ---- client config session handler ----
+
+func C24NewConfigHandler(pl *C24Player) *C24Config {
+	return &C24Config{h: newClientConfigSessionHandler(pl.p)}
+}
+
+// HandlePluginMessage forwards to clientConfigSessionHandler.HandlePacket with a known plugin message.
+func (c *C24Config) HandlePluginMessage(channel string, data []byte) {
+	c.h.HandlePacket(&proto.PacketContext{Direction: proto.ServerBound, Protocol: c.h.player.Protocol(),
+		Packet: &plugin.Message{Channel: channel, Data: data}})
+}
+
+// Flush forwards to flushQueuedPluginMessagesTo; reports whether it returned an error.
+func (c *C24Config) Flush(s *C24ServerConn) bool { return c.h.flushQueuedPluginMessagesTo(s.sc) != nil }
+
+// BackendFinish forwards to handleBackendFinishUpdate; reports whether a future was returned.
+func (c *C24Config) BackendFinish(s *C24ServerConn) bool {
+	return c.h.handleBackendFinishUpdate(s.sc, &config.FinishedUpdate{}) != nil
+}
+
+// Queue returns the queue length, byte counter, overflow latch and whether readyServer is s.
+func (c *C24Config) Queue() (n, bytes int, overflowed bool) {
+	c.h.mu.Lock()
+	defer c.h.mu.Unlock()
+	return c.h.mu.pluginMessages.Len(), c.h.mu.pluginMessagesBytes, c.h.mu.pluginMessagesOverflowed
+}
+func (c *C24Config) ReadyIs(s *C24ServerConn) bool {
+	c.h.mu.Lock()
+	defer c.h.mu.Unlock()
+	return c.h.mu.readyServer == c24sc(s)
+}
+
+// ---- client play session handler ----
+
+func C24NewPlayHandler(pl *C24Player) *C24Play { return &C24Play{h: newClientPlaySessionHandler(pl.p)} }
+
+// HandlePluginMessage forwards to clientPlaySessionHandler.HandlePacket with a known plugin message.
+func (c *C24Play) HandlePluginMessage(channel string, data []byte) {
+	c.h.HandlePacket(&proto.PacketContext{Direction: proto.ServerBound, Protocol: c.h.player.Protocol(),
+		Packet: &plugin.Message{Channel: channel, Data: data}})
+}
+func (c *C24Play) FlushQueued() { c.h.FlushQueuedPluginMessages() }
+func (c *C24Play) Deactivated() { c.h.Deactivated() }
+
+// BackendJoinGame forwards to handleBackendJoinGame with the given JoinGame packet.
+func (c *C24Play) BackendJoinGame(jg *packet.JoinGame, dest *C24ServerConn) error {
+	return c.h.handleBackendJoinGame(&proto.PacketContext{Direction: proto.ClientBound,
+		Protocol: c.h.player.Protocol(), Packet: jg}, jg, dest.sc)
+}
+func (c *C24Play) Queue() (n, bytes int, overflowed bool) {
+	c.h.mu.Lock()
+	defer c.h.mu.Unlock()
+	return c.h.mu.loginPluginMessages.Len(), c.h.mu.loginPluginMessagesBytes, c.h.mu.loginPluginMessagesOverflowed
+}
